@@ -2,7 +2,7 @@
 """Checks on the real binary over HTTP (L3): C16 (loaded data routes like the dataset), C19 (summary
 aggregates the routes of the same query)."""
 import os, sys, time, json, shutil
-import build, checklib as cl, run, gen, l3, l3batch, props_l2
+import build, checklib as cl, run, gen, l3, l3batch, props_l2, loadmodel
 from check_c12 import cl_open
 
 
@@ -47,6 +47,38 @@ def json_fields_ok(ds, raw_body):
     return bad
 
 
+def loader_model_on_datasets(driver, extras, recs):
+    """Loader2.load_all (Loader2.encode_all dataset) for every generated dataset: status READY (the status of the dataset's sizes),
+    the collection sizes of the dataset, no read error -- once on encode_all's own messages, once in the layout write_cache gave the
+    real server (agency 0 / service 0 listed, dataSources present, trips of one service sharing a schedule); and the real server,
+    started on that directory, must be in the predicted class (READY: no data_error answer)."""
+    out = dict(datasets=0, runs=0, ready=0, disagreements=[])
+    impl = {}
+    for r in recs:
+        impl.setdefault(r["case"], []).append(r["impl"])
+    for case, (ds, ops, raws, info) in extras.items():
+        out["datasets"] += 1
+        name = os.path.basename(case)
+        for layout in (False, True):
+            try:
+                p = loadmodel.predict(driver, ds, [("d", [], "healthy", [])], layout=layout)["d"]["load"]
+            except Exception as e:
+                out["disagreements"].append("%s: the model could not be run: %s" % (name, str(e)[:300]))
+                continue
+            out["runs"] += 1
+            want = loadmodel.dataset_sizes(ds, layout=layout)
+            wst = loadmodel.status_of_sizes(want)
+            if p["status"] != wst or p["sizes"] != want or p["read_error"]:
+                out["disagreements"].append("%s (%s): load_all (encode_all dataset) gives %s sizes %s read error %d, the dataset has %s sizes %s"
+                                            % (name, "layout of write_cache" if layout else "encode_all", p["status"], p["sizes"], p["read_error"], wst, want))
+            elif layout:
+                out["ready"] += (p["status"] == "READY")
+                de = [a for a in impl.get(case, []) if "dataerror" in a]
+                if (p["status"] == "READY") != (not de) and impl.get(case):
+                    out["disagreements"].append("%s: the model's status on the files is %s, the real server answers %s" % (name, p["status"], (de or impl[case])[0][:120]))
+    return out
+
+
 def main_c16(pid, tier, seed, replay_path=None):
     t0 = time.time()
     po = cl.proof_obligations(pid)
@@ -60,6 +92,7 @@ def main_c16(pid, tier, seed, replay_path=None):
     out = os.path.join(build.WORK, "scratch", "c16-%d-%s" % (seed, tier))
     recs, extras = l3batch.l3_batch(seed, n, nq, dr, out, binary=binary)
     fails, diffs, nontriv, dead = [], [], set(), []
+    lm = loader_model_on_datasets(dr, extras, recs)
     evals = 0
     for case, (ds, ops, raws, info) in extras.items():
         if not info["alive"]:
@@ -94,6 +127,14 @@ def main_c16(pid, tier, seed, replay_path=None):
         path = cl.write_replay(pid, r, "server on the cache files answers differently from the dataset they encode")
         print("VIOLATION property=%s replay=%s\n  op   : %s\n  impl : %s\n  model: %s" % (pid, path, r["op"][:200], r["impl"][:300], r["model"][:300]))
         viol.append(path); rc = 1
+    elif lm["disagreements"]:
+        path = cl.write_nofail_replay(pid, "correspondence of coq/Loader2.v (encode_all / load_all) with the datasets the real server loaded",
+                                      "model Loader2.load_all and the real loaders disagree:\n" + "\n".join(lm["disagreements"][:60]))
+        print("VIOLATION property=%s replay=%s no-failing-input-found\n  model Loader2.load_all and the real loaders disagree (%d of %d model runs)"
+              % (pid, path, len(lm["disagreements"]), lm["runs"]))
+        for w in lm["disagreements"][:8]:
+            print("  " + w[:400])
+        viol.append(path); rc = 1
     elif not po["ok"]:
         path = cl.write_nofail_replay(pid, "proof obligations of Properties_%s.v (%d of %d)" % (pid, po["discharged"], po["obligations"]), po["log"])
         print("VIOLATION property=%s replay=%s no-failing-input-found" % (pid, path))
@@ -104,12 +145,16 @@ def main_c16(pid, tier, seed, replay_path=None):
                evaluations=evals, distinct_nontrivial=len(nontriv),
                rule="generated datasets are serialised to Cap'n Proto cache directories (capnp encode --packed against /repo's schemas), the real binary is started on them with the walking router replaced by a table-driven OSRM stub; every route / alternatives / accessibility answer over HTTP is compared field by field with the extracted model's answer on the DATASET, validated against the dataset by valid_itinerary_b, and its uuids/coordinates/modes checked; non-trivial = successful route answer",
                samples=samples or [dict(note="none")], datasets=len(extras), server_deaths=len(dead),
-               disagreements=len(diffs), oracle_violations=len(fails), exhaustive=False)
+               disagreements=len(diffs), oracle_violations=len(fails), exhaustive=False,
+               loader_model_rule="for every generated dataset the extracted Loader2.load_all (Loader2.encode_all dataset) must give the status of the dataset's collection sizes (READY), exactly these sizes and no read error -- on encode_all's own messages and in the layout tools/l3.py write_cache gave the real server; the real server started on that directory must be in the class of that status (its answers are compared with the model's answers on the dataset above)",
+               loader_model_datasets=lm["datasets"], loader_model_comparisons=lm["runs"], loader_model_ready=lm["ready"],
+               loader_model_disagreements=len(lm["disagreements"]), loader_model_disagreement_samples=lm["disagreements"][:10])
     cl.write_evidence(pid, tier, seed, "proof", cov, ["Cap'n Proto packed encoding/decoding and capnp encode are trusted (both sides use the library)",
                                                       "stops are placed metres apart so that the Euclidean pre-filter (float arithmetic, not modelled) passes every stop"],
                       time.time() - t0, len(viol))
-    print("%s %s: obligations %d/%d, %d answers on %d cache directories (%d successes), %d disagreements, %d violations, %.1fs" %
-          (pid, tier, po["discharged"], po["obligations"], evals, len(extras), len(nontriv), len(diffs), len(fails) + len(dead), time.time() - t0))
+    print("%s %s: obligations %d/%d, %d answers on %d cache directories (%d successes), %d disagreements, %d violations; loader model: %d runs on %d datasets (%d READY), %d disagreements; %.1fs" %
+          (pid, tier, po["discharged"], po["obligations"], evals, len(extras), len(nontriv), len(diffs), len(fails) + len(dead),
+           lm["runs"], lm["datasets"], lm["ready"], len(lm["disagreements"]), time.time() - t0))
     return rc
 
 
